@@ -57,6 +57,12 @@ fn flatten(l: &NestedIntList, out: &mut Vec<usize>) {
 }
 
 /// Direct compilation of a Sierra program with the entry-point cost configuration of contract classes.
+thread_local! {
+    /// (end of code, start of every const segment) of the last `direct_bytecode` compile, computed by counting words:
+    /// each const segment is one `ret` word followed by its values.
+    static CONST_SEGMENTS: std::cell::RefCell<(usize, Vec<usize>)> = const { std::cell::RefCell::new((0, vec![])) };
+}
+
 fn direct_bytecode(p: &Program, entry_fn_idx: &[usize], linear: bool) -> Result<(Vec<BigUint>, BTreeSet<usize>, Vec<usize>), String> {
     let info = ProgramRegistryInfo::new(p).map_err(|e| format!("{e}"))?;
     let cfg = MetadataComputationConfig {
@@ -85,6 +91,13 @@ fn direct_bytecode(p: &Program, entry_fn_idx: &[usize], linear: bool) -> Result<
         })
         .collect();
     let stmt_starts: Vec<usize> = c.debug_info.sierra_statement_info.iter().map(|s| s.start_offset).collect();
+    let mut const_starts = vec![];
+    let mut pos = o;
+    for seg in c.consts_info.segments.values() {
+        const_starts.push(pos);
+        pos += 1 + seg.values.len();
+    }
+    CONST_SEGMENTS.with(|cs| *cs.borrow_mut() = (o, const_starts));
     Ok((bytecode, starts, stmt_starts))
 }
 
@@ -157,6 +170,7 @@ fn check_class(ctx: &mut Ctx, name: &str, class: &ContractClass, in_memory: Opti
     if bc != direct {
         ctx.violation("bytecode-differs-from-direct-compile", "class bytecode differs from directly compiling the extracted Sierra with the same cost configuration", case("direct"));
     }
+    let (code_end_words, const_starts) = CONST_SEGMENTS.with(|c| c.borrow().clone());
     if let Some(mem) = in_memory {
         ctx.count("classes_with_in_memory_program", 1);
         match direct_bytecode(mem, &entry_idx, linear) {
@@ -245,6 +259,19 @@ fn check_class(ctx: &mut Ctx, name: &str, class: &ContractClass, in_memory: Opti
                 }
             }
         }
+        // after the code: every const segment (a `ret` word followed by its values; entered by a call to that head)
+        // must start a segment, and no cut may fall anywhere else
+        let cuts: BTreeSet<usize> = flat[..flat.len().saturating_sub(1)].iter().scan(0usize, |acc, n| { *acc += n; Some(*acc) }).collect();
+        for cs in &const_starts {
+            if *cs > 0 && !cuts.contains(cs) {
+                ctx.violation("const-segment-start-not-a-cut", format!("the const segment starting at word {cs} does not start a bytecode segment (cuts after the code: {:?})", cuts.iter().filter(|c| **c >= code_end_words).collect::<Vec<_>>()), case("segments"));
+                break;
+            }
+        }
+        if let Some(bad) = cuts.iter().find(|c| **c > code_end_words && !const_starts.contains(c)) {
+            ctx.violation("segment-cut-inside-const-data", format!("bytecode segment boundary {bad} lies inside the const area but is not the start of a const segment {const_starts:?}"), case("segments"));
+        }
+        ctx.max("const_segments_max", const_starts.len() as i64);
     }
     // hashes stable under JSON round trips
     let h1 = casm.compiled_class_hash();
@@ -400,6 +427,32 @@ fn ladder_contract(k: usize) -> String {
     s
 }
 
+/// The const-segment ladder: a boxed constant (const segment #0, through `const_as_box`) and k different circuits
+/// (one const segment each, through `get_circuit_descriptor`): 0..=6 trailing const segments of varying sizes.
+fn const_segments_contract(k: usize, boxed: bool) -> String {
+    let circuits: [&str; 5] = [
+        "circuit_inverse(circuit_add(in1, in2))",
+        "circuit_inverse(circuit_add(circuit_mul(circuit_mul(circuit_add(in1, in2), in2), circuit_add(in1, in2)), in1))",
+        "circuit_mul(in1, in2)",
+        "circuit_add(circuit_mul(in1, in1), circuit_mul(in2, in2))",
+        "circuit_mul(circuit_add(circuit_add(in1, in2), in1), circuit_inverse(in2))",
+    ];
+    let mut s = String::from(
+        "#[starknet::contract]\nmod c {\n    use core::circuit::{AddInputResultTrait, CircuitElement, CircuitInput, CircuitInputs, CircuitModulus, EvalCircuitTrait, circuit_add, circuit_inverse, circuit_mul};\n    #[storage]\n    struct Storage {}\n",
+    );
+    if boxed {
+        s.push_str("    #[inline(never)]\n    fn first(values: Box<[felt252; 2]>) -> felt252 { let [a, _b] = values.unbox(); a }\n    #[external(v0)]\n    fn boxed_const(self: @ContractState) -> felt252 { first(BoxTrait::new([17, 18])) }\n");
+    }
+    for (i, c) in circuits.iter().enumerate().take(k) {
+        s.push_str(&format!(
+            "    #[external(v0)]\n    fn circuit{i}(ref self: ContractState) -> felt252 {{\n        let in1 = CircuitElement::<CircuitInput<0>> {{}};\n        let in2 = CircuitElement::<CircuitInput<1>> {{}};\n        let out = {c};\n        let modulus = TryInto::<_, CircuitModulus>::try_into([{}, 0, 0, 0]).unwrap();\n        match (out,).new_inputs().next([3, 0, 0, 0]).next([6, 0, 0, 0]).done().eval(modulus) {{ Ok(_) => 1, Err(_) => 0 }}\n    }}\n",
+            7 + 4 * i
+        ));
+    }
+    s.push_str("}\n");
+    s
+}
+
 /// Parameter / return shapes: each drives different (de)serialization code, builtins and gas in the wrapper.
 const SHAPES: &[(&str, &str, &str)] = &[
     ("none", "", "1"),
@@ -487,6 +540,17 @@ fn run(ctx: &mut Ctx) {
     for k in 0..tier.pick(8usize, 70) {
         ctx.case(|| json!({"space":"length-ladder","appended_constants":k}), |ctx| check_generated(ctx, &format!("ladder:{k}"), &ladder_contract(k), Some((1, 0, 0))));
     }
+    for k in 0..=5usize {
+        for boxed in [true, false] {
+            if tier == Tier::Quick && !(boxed && (k == 0 || k == 2 || k == 3 || k == 5)) && !(k == 3 && !boxed) {
+                continue;
+            }
+            ctx.case(
+                || json!({"space":"const-segment-ladder","circuits":k,"boxed_const":boxed}),
+                |ctx| check_generated(ctx, &format!("const-segments:{k}:{boxed}"), &const_segments_contract(k, boxed), Some((k + boxed as usize, 0, 0))),
+            );
+        }
+    }
     for i in 0..SHAPES.len() {
         ctx.case(|| json!({"space":"parameter-shapes","shape":SHAPES[i].0}), |ctx| check_generated(ctx, &format!("shape:{}", SHAPES[i].0), &shape_contract(i), Some((2, 0, 0))));
         if tier == Tier::Thorough {
@@ -506,7 +570,7 @@ fn _v(_: Value) {}
 pub static C19: CheckDef = CheckDef {
     id: "C19",
     level: "exploration",
-    rule: "Enumerated: (1) every *.contract_class.json under crates/cairo-lang-starknet/test_data; (2) every contract of cairo_level_tests/ and test_data/ compiled in-process (compared with the compiler's own in-memory Sierra for that contract); (3) generated contracts: entry-point subsets of a 6-function menu using different builtins (none, pedersen, poseidon, bitwise, ec_op, dict+storage) x constructor {y,n} x l1_handler {y,n} (quick: subsets of size <=1 and the full set; thorough: all 64 x 4); (4) a length ladder: one external function appending k constants, k < 8 (thorough 70), so the felt-serialized program takes every length residue of the vector compression (observed residues mod 31 are listed in observed_outcomes); (5) 14 parameter / return shapes (none, felt, ints, u256, bool, arrays, spans, tuples, options, ByteArray, 8 parameters, addresses, nested arrays) each as a mutable and a view entry point (thorough: also as constructor and l1_handler parameters); each x {pythonic hints on/off} x max_bytecode_size {exact, exact-1, 0}. Oracle on CasmContractClass::from_contract_class(extract(class)): bytecode == direct compile of the extracted program == direct compile of the compiler's in-memory program; extracted Sierra == in-memory Sierra; every entry offset == start of the function's entry statement and an instruction start; builtins == the function's builtin parameters, in protocol order (independent table); entry points strictly sorted by selector; every word < P; hint offsets are instruction starts, increasing; segment lengths sum to the bytecode length and cut at function starts; compiled class hashes and the class itself stable under JSON round trips; size limit exact passes / exact-1 is a clean error, never a panic.",
+    rule: "Enumerated: (1) every *.contract_class.json under crates/cairo-lang-starknet/test_data; (2) every contract of cairo_level_tests/ and test_data/ compiled in-process (compared with the compiler's own in-memory Sierra for that contract); (3) generated contracts: entry-point subsets of a 6-function menu using different builtins (none, pedersen, poseidon, bitwise, ec_op, dict+storage) x constructor {y,n} x l1_handler {y,n} (quick: subsets of size <=1 and the full set; thorough: all 64 x 4); (4) a length ladder: one external function appending k constants, k < 8 (thorough 70), so the felt-serialized program takes every length residue of the vector compression (observed residues mod 31 are listed in observed_outcomes); (5) 14 parameter / return shapes (none, felt, ints, u256, bool, arrays, spans, tuples, options, ByteArray, 8 parameters, addresses, nested arrays) each as a mutable and a view entry point (thorough: also as constructor and l1_handler parameters); each x {pythonic hints on/off} x max_bytecode_size {exact, exact-1, 0}. Oracle on CasmContractClass::from_contract_class(extract(class)): bytecode == direct compile of the extracted program == direct compile of the compiler's in-memory program; extracted Sierra == in-memory Sierra; every entry offset == start of the function's entry statement and an instruction start; builtins == the function's builtin parameters, in protocol order (independent table); entry points strictly sorted by selector; every word < P; hint offsets are instruction starts, increasing; segment lengths sum to the bytecode length, cut at function starts inside the code, and after the code exactly at the starts of the const segments (computed by counting words: a `ret` head plus the values of each segment) - over a ladder of contracts with 0..6 trailing const segments (a boxed constant and up to 5 different circuits); compiled class hashes and the class itself stable under JSON round trips; size limit exact passes / exact-1 is a clean error, never a panic.",
     assumptions: &["the protocol builtin order is the Starknet OS order pedersen, range_check, bitwise, ec_op, poseidon, segment_arena, range_check96, add_mod, mul_mod"],
     run,
     stack_mb: 32,
